@@ -1,6 +1,8 @@
 /- Kernel obligation: entries 0x6000..0x6fff of the live float16->code table `Gen.encE5M2S` pass `encChk`
-   (one sixteenth of the table per file so that lake checks them in parallel; assembled in Proofs/C11_Tables.lean). -/
-import BitstringModel.Model.C11
+   (one sixteenth of the table per file so that lake checks them in parallel; depends only on the specification and on
+   this table; assembled in Proofs/C11_Tables.lean). -/
+import BitstringModel.Model.C11_Spec
+import BitstringModel.Gen.LutEncE5M2S
 namespace BM.C11
-theorem encChunk_E5M2S_06 : encChunkOk .e5m2s 6 = true := by decide +kernel
+theorem encChunk_E5M2S_06 : encChunkOkT Gen.encE5M2S Fmt.e5m2 .saturate 6 = true := by decide +kernel
 end BM.C11
